@@ -71,7 +71,7 @@ class PureCheck:
         if self.warm_every:
             # the same operation on operands that were looked at before (memo interactions): every k-th input again
             step = self.warm_every if tier == "quick" else max(2, self.warm_every - 1)
-            inputs += [dict(inp, warm=1 + (k // step) % 31) for k, inp in enumerate(inputs) if k % step == 0]
+            inputs += [dict(inp, warm=1 + (k // step) % 63) for k, inp in enumerate(inputs) if k % step == 0]
         events = [self._execute(inp) for inp in inputs]
         return inputs, events
 
